@@ -1,0 +1,11 @@
+//go:build verif
+
+package zipslicer
+
+import "io"
+
+// Exports for the verification harness (build tag "verif" only; add-only).
+
+// VerifReaderAt returns the io.ReaderAt the directory reads member data from
+// (for ReadZipTar / ReadStream: the streamReaderAt over the upload stream).
+func (d *Directory) VerifReaderAt() io.ReaderAt { return d.r }
